@@ -177,6 +177,7 @@ class FQN:
                         return_value = find_obj(m, name)
                         if return_value is not None:
                             return return_value
+                meta_attrs = getattr(type(parent), "_tx_attrs", {})
                 for attr in [
                     a
                     for a in parent.__dict__
@@ -184,6 +185,12 @@ class FQN:
                     and not a.startswith("_tx_")
                     and not callable(getattr(parent, a))
                 ]:
+                    # A qualified name follows containment only. Do not walk
+                    # up to the container or through plain references.
+                    if attr == "parent" or (
+                        attr in meta_attrs and not meta_attrs[attr].cont
+                    ):
+                        continue
                     obj = getattr(parent, attr)
                     if isinstance(obj, (list, tuple)):
                         for innerobj in obj:
